@@ -399,7 +399,7 @@ func (fork ForkId) expandStaticForkPart(i int, part *ForkSourcePart,
 			if j == 0 {
 				fork[i] = &parts[0]
 			} else {
-				id := ids[:len(fork)]
+				id := ids[:len(fork):len(fork)]
 				ids = ids[len(fork):]
 				for k := range id {
 					if k == i {
@@ -439,7 +439,7 @@ func (fork ForkId) expandStaticForkPart(i int, part *ForkSourcePart,
 			if j == 0 {
 				fork[i] = &parts[0]
 			} else {
-				id := ids[:len(fork)]
+				id := ids[:len(fork):len(fork)]
 				ids = ids[len(fork):]
 				for k := range id {
 					if k == i {
